@@ -43,7 +43,7 @@ func init() {
 		return tt.Res{Ok: err == nil, V: v}
 	}
 	h["Nth"] = func(o tt.Op) tt.Res {
-		v, err := gogu.Nth(cp(o.L[0]), o.A[0])
+		v, err := gogu.Nth(cp(o.L[0]), xint(o.A[0]))
 		return tt.Res{Ok: err == nil, V: v}
 	}
 	h["Sum"] = func(o tt.Op) tt.Res { return rv(gogu.Sum(cp(o.L[0]))) }
@@ -60,6 +60,43 @@ func init() {
 	h["Range"] = func(o tt.Op) tt.Res {
 		r, err := gogu.Range(o.A...)
 		return rerr(r, err)
+	}
+	u8 := func(a []int) []uint8 {
+		o := make([]uint8, len(a))
+		for i, v := range a {
+			o[i] = uint8(v)
+		}
+		return o
+	}
+	i8 := func(a []int) []int8 {
+		o := make([]int8, len(a))
+		for i, v := range a {
+			o[i] = int8(v)
+		}
+		return o
+	}
+	toInts8 := func(r []uint8) []int {
+		o := make([]int, len(r))
+		for i, v := range r {
+			o[i] = int(v)
+		}
+		return o
+	}
+	h["RangeU8"] = func(o tt.Op) tt.Res {
+		r, err := gogu.Range(u8(o.A)...)
+		return rerr(toInts8(r), err)
+	}
+	h["RangeRightU8"] = func(o tt.Op) tt.Res {
+		r, err := gogu.RangeRight(u8(o.A)...)
+		return rerr(toInts8(r), err)
+	}
+	h["RangeI8"] = func(o tt.Op) tt.Res {
+		r, err := gogu.Range(i8(o.A)...)
+		o2 := make([]int, len(r))
+		for i, v := range r {
+			o2[i] = int(v)
+		}
+		return rerr(o2, err)
 	}
 	h["RangeRight"] = func(o tt.Op) tt.Res {
 		r, err := gogu.RangeRight(o.A...)
@@ -185,6 +222,21 @@ func init() {
 			}
 		}
 		r.call(hop("Range", "", []int{1, 2, 3, 4}))
+		// positions at the limits of int
+		for _, q := range [][]int{{}, {7}, {1, 2, 3}} {
+			for _, x := range xints {
+				r.call(hop("Nth", "", []int{x}, q))
+			}
+		}
+		// element types whose upper half a signed conversion would lose
+		for _, a := range [][]int{{125, 131}, {250, 255}, {0, 3}, {200, 120, 16}, {131, 1, 125}, {255, 250}, {120, 4, 140}} {
+			r.call(hop("RangeU8", "", a))
+			r.call(hop("RangeRightU8", "", a))
+		}
+		// (the value one step past the last element is representable too: nothing may wrap around)
+		for _, a := range [][]int{{120, 127}, {-128, -120}, {127, 120}, {-100, 3, -110}, {100, 9, 120}} {
+			r.call(hop("RangeI8", "", a))
+		}
 		for i := 0; i < 1000; i++ {
 			a := randSlice(rng, 25, 9)
 			v := rng.Intn(11)
